@@ -9,7 +9,7 @@ open Vivid.Codec
 
 /-- Registered messages without a schema (arbitrary nested message / interface-typed fields). -/
 def unmodelled : List String :=
-  ["OnKill", "OnKilled", "PipeResult", "SchedulerMessage", "clusterSingletonForwardedMessage"]
+  ["PipeResult", "SchedulerMessage", "clusterSingletonForwardedMessage"]
 
 theorem registry_covered :
     ∀ n ∈ Vivid.Generated.registeredNames, (schemaOf none n).isSome = true ∨ n ∈ unmodelled := by decide
